@@ -476,8 +476,13 @@ def weave_fn(text, directives, canary=False):
         non_isolated = any(d.kind == "attr" and "loop_isolation(false)" in d.arg for d in directives)
         if sh.body_open is not None and not (non_isolated and loops):
             add(toks[sh.body_open].end, "\nassert(false); // CANARY body\n", Directive("canary", "body", 0), order=3)
+        def has_spec(li):
+            return any(d.kind == "loop" and d.arg.split()[0] == str(li + 1) and len(d.arg.split()) == 1 for d in directives)
         for li, (kw, bo, bc) in enumerate(loops):
-            if any(d.kind == "loop" and d.arg.split()[0] == str(li + 1) and len(d.arg.split()) == 1 for d in directives):
+            # non-isolated function: an outer-loop canary would mask the canaries of the loops nested in it
+            if non_isolated and any(lj != li and has_spec(lj) and bo < loops[lj][0] < bc for lj in range(len(loops))):
+                continue
+            if has_spec(li):
                 add(toks[bo].end, f"\nassert(false); // CANARY loop {li+1}\n", Directive("canary", f"loop {li+1}", 0), order=3)
     # apply: edits are replacements of original text, ins are pure insertions carrying a directive
     pieces = []  # (start, end, replacement, directive_or_None)
